@@ -5,6 +5,7 @@ package props
 import (
 	"fmt"
 	"runtime/debug"
+	"slices"
 	"sync"
 	"testing"
 
@@ -265,6 +266,53 @@ func checkC19(c C19Case, o *Obs) error {
 		}
 		if err := sharedUnchanged(tc.name); err != nil {
 			return err
+		}
+	}
+	// An iterator value and a tree that changes: the value is obtained on tree A, the tree grows
+	// to B (a new last child of the root), a first pass runs, the tree grows to C (a child under
+	// the new node), a second pass runs. An iterator may walk the tree as it is when ranged
+	// (passes see B, then C - what the pinned code does) or as it was when the value was obtained
+	// (A, A); anything else - remembering the first pass, mixing the two - is neither.
+	if len(nodes) <= 400 {
+		for _, pre := range []bool{true, false} {
+			name, refOrder := "PostOrder", refPostOrder
+			it := root.PostOrder()
+			if pre {
+				name, refOrder = "PreOrder", refPreOrder
+				it = root.PreOrder()
+			}
+			run := func() (out []*newick.Node, p any) {
+				p = catch(func() {
+					it(func(n *newick.Node) bool {
+						out = append(out, n)
+						return len(out) <= len(nodes)+4
+					})
+				})
+				return
+			}
+			same := func(a, b []*newick.Node) bool { return slices.Equal(a, b) }
+			orderA := refOrder(root, nil)
+			oldChildren := root.Children
+			extra := &newick.Node{Name: "added"}
+			root.Children = append(slices.Clone(oldChildren), extra)
+			orderB := refOrder(root, nil)
+			pass1, p1 := run()
+			extra.Children = []*newick.Node{{Name: "added below"}}
+			orderC := refOrder(root, nil)
+			pass2, p2 := run()
+			root.Children = oldChildren // restore tree A
+			if p1 != nil || p2 != nil {
+				return fmt.Errorf("%s over a tree that grew after the iterator value was obtained panicked: %v %v", name, p1, p2)
+			}
+			live := same(pass1, orderB) && same(pass2, orderC)
+			snapshot := same(pass1, orderA) && same(pass2, orderA)
+			if !live && !snapshot {
+				return fmt.Errorf("%s: iterator value obtained on a tree of %d nodes, tree grown to %d nodes, first pass yields %d nodes, tree grown to %d nodes, second pass yields %d nodes: neither the tree at the time of each pass (%d, %d) nor the tree at the time the value was obtained (%d, %d) (parents %v)",
+					name, len(orderA), len(orderB), len(pass1), len(orderC), len(pass2), len(orderB), len(orderC), len(orderA), len(orderA), abbreviateInts(pa))
+			}
+		}
+		if err := sameSnapshot(nodes, snap); err != nil {
+			return fmt.Errorf("after restoring the tree: %v", err)
 		}
 	}
 	// Nested traversals: while an outer traversal is being consumed, the loop body walks the
